@@ -57,6 +57,16 @@ def handle (op : String) (j : Json) : Option Json :=
                  ("countBegin", Spec.Txn.countBegin out),
                  ("noMarkers", Json.bool (Spec.Txn.noMarkers out))])
     | _, _ => some (errJ "bad-op")
+  | "txn.configure" =>
+    -- calls: [[override|null, perMig], ...] (earlier configure() calls of the run), then the judged call
+    let argsOf (x : Json) : Model.Online.ConfigureArgs :=
+      match x with
+      | .arr a => { tddl := (a[0]?.bind (fun v => match v with | .bool b => some b | _ => none)),
+                    perMig := (a[1]?.bind (fun v => match v with | .bool b => some b | _ => none)).getD false }
+      | _ => { tddl := none, perMig := false }
+    let calls := (getArr j "calls").map argsOf
+    let c := lastCfg (getBoolD j "dialectDefault") calls (argsOf (getObj j "call"))
+    some (obj [("tddl", Json.bool c.tddl), ("perMig", Json.bool c.perMig)])
   | _ => none
 
 end Drv.Txn
